@@ -11,9 +11,12 @@ CONSTANTS
   MaxEx = 16
   ProbeNs <- GProbes
   ProbeUids <- GUids
+  MaxOld = 3
   Exhaustive = FALSE
   Biases <- BiasAll
   TickPct = 12
   ProbePct = 8
+  StalePct = 30
+  ExInj <- InjX
 INVARIANTS Emit
 PROPERTIES StepOfSpec
